@@ -273,10 +273,16 @@ func mkRecover() *lab.Scenario {
 		}
 	}
 	started := false
+	ticked := false
 	phase := 0
 	sc.Actions = func(w *lab.World) []lab.Action {
 		if w.Tor == nil {
 			return nil
+		}
+		if started && !ticked && w.Tor.VerifState().HasVerifier {
+			// the periodic resume write falls into the re-verification
+			ticked = true
+			return []lab.Action{{Label: "resume tick during verification", Do: func(w *lab.World) { w.S.VerifUpdateStats(); w.Count("ticks_during_verification", 1) }}}
 		}
 		acts := lab.StdActions(w)
 		if len(acts) > 0 {
@@ -316,6 +322,20 @@ func mkRecover() *lab.Scenario {
 			s := w.Tor.VerifState().Status
 			if s == "Downloading" || s == "Seeding" { // before Start the client cannot know that files are gone
 				claims(w, "running")
+			}
+			// "resume state on disk never claims more than the data on disk": once this run has looked at the files
+			// (allocation is over), what the resume database says is compared with the files after every step
+			if s == "Verifying" || s == "Downloading" || s == "Seeding" {
+				if rb := w.S.VerifResumeBitfield(w.Tor.ID()); len(rb) > 0 {
+					for i := 0; i < g.NumPieces && i/8 < len(rb); i++ {
+						if rb[i/8]&(0x80>>(i%8)) != 0 {
+							w.Count("resume_db_claims_checked", 1)
+							if !correct(w, i) {
+								w.Failf("C05.resume-db-ahead-of-disk", "the resume database claims piece %d while the torrent is %s, but its verified content is not in the files (%s)", i, s, arg.Desc)
+							}
+						}
+					}
+				}
 			}
 		}
 	}
